@@ -307,7 +307,7 @@ pub fn c15(a: &Args, rep: &mut Report) {
     rep.assumptions = vec!["tolerance model of DESIGN 5.3".into()];
     if is_miri_leg(a) {
         // the unchecked Option accessors and the TypeId-guarded transmute under the UB interpreter
-        for k in 0..2 {
+        for k in 0..(if a.tier == "thorough" { 2 } else { 1 }) {
             let mut c = miri_case(a.seed, k);
             if c.dim != 3 && k == 0 {
                 c = miri_case(a.seed + 1, 6 - (a.seed + 1) % 6);
